@@ -9,4 +9,8 @@ for i in 01 02 03 04 05 06 07 08 09 10 11 12 13 14 15 16 17 18 19 20; do
   e=$(date +%s)
   echo "C$i exit=$rc $((e-s))s $(grep -c VIOLATION work/runall_C$i.log) violation lines, $(grep -c KNOWN-FINDING work/runall_C$i.log) known"
 done
+
+# every generated file now exists: check that each path condition of Cgm/Trace/Cover.lean implies the hypotheses of the
+# obligation it is copied from
+(cd lean && lake build Cgm.Trace.CoverLink > ../work/runall_coverlink.log 2>&1 && echo "CoverLink ok" || echo "CoverLink FAILED (work/runall_coverlink.log)")
 echo ALLDONE
